@@ -739,6 +739,7 @@ class Engine:
         if s.startswith('const '): return self.const(s[6:])
         raise Unsupported('operand ' + s)
     def binop(self, op, a, b):
+        if isinstance(a, Opaque) or isinstance(b, Opaque): return Opaque('binop', (op, a, b))     # over an external constant the dump does not evaluate
         ty = a.ty
         if isinstance(a, Ptr) and isinstance(b, Ptr):
             a = V(a.addr, 'usize'); b = V(b.addr, 'usize'); ty = 'usize'
@@ -812,6 +813,7 @@ class Engine:
         if kind == 'PointerExposeProvenance':
             if isinstance(v, Ptr): return V(v.addr, ty)
             if isinstance(v, Slice): return V(v.base, ty)
+            if isinstance(v, Opaque) and v.tag == 'fnptr': return V(BitVec('fnaddr.' + '.'.join(str(a) for a in v.args), 64), ty)
         if kind.startswith('PointerCoercion'):
             if 'Unsize' in kind and isinstance(v, Ref) and re.search(r'\[\w+\]$', ty.strip()):
                 inner = self.get(None, v.frame, v.local, v.proj) if True else None
@@ -845,7 +847,15 @@ class Engine:
         m = re.match(r'(\w+)\((.*)\)$', r)
         if m and m.group(1) == 'discriminant':
             v = self.rd(st, fr, parse_place(m.group(2)))
-            if isinstance(v, Enum): return V(v.disc(), 'isize')
+            if isinstance(v, Enum):
+                e = (v.ty or '').split('::')[-1].split('<')[0]; vs = self.types.enums.get(e)
+                if vs and any(len(x) > 2 and x[2] for x in vs):     # C-like enum with explicit discriminant values
+                    vals = [self.types.discr_value(e, i) for i in range(len(vs))]
+                    if None in vals: raise Unsupported(f'discriminant values of {e}')
+                    d = v.disc(); r = BitVecVal(vals[-1], 64)
+                    for i in range(len(vs) - 2, -1, -1): r = If(d == i, BitVecVal(vals[i], 64), r)
+                    return V(simplify(r), 'isize')
+                return V(v.disc(), 'isize')
             raise Unsupported(f'discriminant of {v}')
         if m and m.group(1) in ('PtrMetadata', 'Len'):
             v = self.operand(st, fr, m.group(2)) if m.group(2).startswith(('copy', 'move')) else self.rd(st, fr, parse_place(m.group(2)))
@@ -1280,6 +1290,13 @@ def intrinsic(eng, st, fr, callee, base, args, R):
                 start, end = rng.f[0].t, rng.f[1].t
                 if not eng.panic_if(st, fr, Or(UGT(start, end), UGT(end, s.len)), 'slice index out of range'): return None
                 return R(Slice(s.base + start * esz, end - start, s.ety))
+    m = re.match(r'<(?:std::vec::Vec<(\w+)>|alloc::vec::Vec<(\w+)>|\[(\w+)\]) as Index(?:Mut)?<usize>>::index(?:_mut)?$', base)
+    if m:
+        ety_ = m.group(1) or m.group(2) or m.group(3); s = deref(args[0])
+        if isinstance(s, Slice) and ety_ in INT_TYPES:
+            esz = bvw(ety_)[0] // 8
+            if not eng.panic_if(st, fr, UGE(args[1].t, s.len), 'index out of bounds'): return None
+            return R(Ptr(s.base + args[1].t * esz, ety_))
     if base.endswith('as std::ops::Try>::branch'):
         r = args[0]
         if r.ty == 'Option' or (set(r.payload) <= {0, 1} and 'Option' in callee.split(' as ')[0]):
@@ -1349,6 +1366,10 @@ def intrinsic(eng, st, fr, callee, base, args, R):
         r = deref(args[0]); x = deref(args[1])
         sg = bvw(x.ty)[1]
         return R(V(And((r.f[0].t <= x.t) if sg else ULE(r.f[0].t, x.t), (x.t < r.f[1].t) if sg else ULT(x.t, r.f[1].t)), 'bool'))
+    if base in ('std::ops::RangeInclusive::contains', 'core::ops::RangeInclusive::contains'):
+        r = deref(args[0]); x = deref(args[1])
+        sg = bvw(x.ty)[1]
+        return R(V(And((r.f[0].t <= x.t) if sg else ULE(r.f[0].t, x.t), (x.t <= r.f[1].t) if sg else ULE(x.t, r.f[1].t)), 'bool'))
     if base in ('std::ops::RangeInclusive::new', 'core::ops::RangeInclusive::new'): return R(Agg([args[0], args[1]], 'RangeInclusive'))
     m = re.match(r'<\[(\w+); (\d+)\] as Index(Mut)?<std::ops::RangeInclusive<usize>>>::index(_mut)?$', base)
     if m:
